@@ -118,7 +118,25 @@ pub fn apply_md(map: &mut MetadataMap, entries: &[MdEntry]) {
             if AsciiMetadataKey::from_bytes(spelled.as_bytes()).is_ok() {
                 key_abort("C08/ascii-key-accepts-bin-suffix", format!("AsciiMetadataKey::from_bytes({spelled:?}) is accepted: an ASCII entry could be stored under a binary name"));
             }
-            map.append_bin(k, BinaryMetadataValue::from_bytes(&e.val));
+            // the attaching API varies with the entry (append / insert for a first occurrence /
+            // the entry API): all of them "attach" an entry
+            let first = !map.contains_key(e.key.as_str());
+            let v = BinaryMetadataValue::from_bytes(&e.val);
+            match (e.val.len() + e.key.len()) % 3 {
+                1 if first => {
+                    map.insert_bin(k, v);
+                }
+                2 => match map.entry_bin(k) {
+                    Ok(tonic::metadata::Entry::Vacant(slot)) => {
+                        slot.insert(v);
+                    }
+                    Ok(tonic::metadata::Entry::Occupied(mut slot)) => slot.append(v),
+                    Err(_) => key_abort("C08/binary-key-rejected", format!("entry_bin({spelled:?}) refuses a valid binary key")),
+                },
+                _ => {
+                    map.append_bin(k, v);
+                }
+            }
         } else {
             let k = match AsciiMetadataKey::from_bytes(spelled.as_bytes()) {
                 Ok(k) => k,
@@ -128,7 +146,22 @@ pub fn apply_md(map: &mut MetadataMap, entries: &[MdEntry]) {
                 key_abort("C08/key-not-normalised", format!("AsciiMetadataKey::from_bytes({spelled:?}) is stored as {:?}", k.as_str()));
             }
             let v = AsciiMetadataValue::try_from(&e.val[..]).expect("harness: ascii value");
-            map.append(k, v);
+            let first = !map.contains_key(e.key.as_str());
+            match (e.val.len() + e.key.len()) % 3 {
+                1 if first => {
+                    map.insert(k, v);
+                }
+                2 => match map.entry(k) {
+                    Ok(tonic::metadata::Entry::Vacant(slot)) => {
+                        slot.insert(v);
+                    }
+                    Ok(tonic::metadata::Entry::Occupied(mut slot)) => slot.append(v),
+                    Err(_) => key_abort("C08/ascii-key-rejected", format!("entry({spelled:?}) refuses a valid ASCII key")),
+                },
+                _ => {
+                    map.append(k, v);
+                }
+            }
         }
     }
 }
